@@ -28,7 +28,13 @@ EXPLANATION = (
     "every path through get_feature_names ends in sorted(), and "
     "compute_features iterates the very list it returns as names; (R5) "
     "ranges by sign analysis: binary features return bool or NaN, the "
-    "logarithmic magnitude features are log(1 + v) of a non-negative v.")
+    "logarithmic magnitude features are log(1 + v) of a non-negative v, "
+    "every non-NaN value that leaves a magnitude feature is non-negative "
+    "under the premise that the approach force reaches positive values "
+    "(abs/std/counts, sums of those, and max(force) as the only admitted "
+    "force-valued divisor), the two fraction features have the "
+    "part-of-whole shapes a/(a+b) and 1 - count(mask over x)/size(x); "
+    "cp_curvature is signed by design.")
 NOT_DECIDED = [
     "finiteness (e.g. idt_monotony divides by a sum that can be 0)",
     "[0, 1] range of the two fraction features beyond their a/(a+b) and "
@@ -528,6 +534,6 @@ RULES = [
      r3_approach_only_readonly),
     ("C17-R4", "names sorted on every path; samples follow the returned "
      "names", r4_order),
-    ("C17-R5", "binary features bool/NaN; log magnitudes of non-negative "
-     "arguments", r5_ranges),
+    ("C17-R5", "binary features bool/NaN; magnitude results non-negative; "
+     "fraction shapes", r5_ranges),
 ]
